@@ -30,10 +30,12 @@ CLAUSES = ("C10.line", "C10.union", "C10.all", "C10.exempt", "C10.others_skipped
 
 
 # --------------------------------------------------------------------------- rendering (abstract layout -> text)
-def render(items, rnd, shift=0):
+def render(items, rnd, shift=0, same=False):
     """items: the rendering contract of Select.tla (k, pre, body, tag, nt).  Returns (text, entity start lines,
     number of lines).  Filler lines are comments, blank lines or extra tag lines; bodies are descriptions,
-    backgrounds and steps.  The choice among equivalent fillers is made by rnd."""
+    backgrounds and steps.  The choice among equivalent fillers is made by rnd.  same: every scenario and every
+    outline gets the SAME keyword and name (rows of same-named outlines get identical generated names), so that
+    selection can only go by location, never by name."""
     out = []
     ent_lines = []
     tab = 0
@@ -58,6 +60,8 @@ def render(items, rnd, shift=0):
     for idx, it in enumerate(items):
         k, pre, body, tag, nt = it["k"], it["pre"], it["body"], it["tag"], it["nt"]
         name = NAMES[(idx + shift) % len(NAMES)]
+        if same and k in ("scenario", "outline"):
+            name = NAMES[shift % len(NAMES)]
         tagline = "" if tag == "none" else "@" + tag
         if k == "feature":
             out += fill(pre, True, tagline, "")
@@ -71,12 +75,12 @@ def render(items, rnd, shift=0):
             out += container_body(body, rnd, "    ")
         elif k == "scenario":
             out += fill(pre, True, tagline, "    ")
-            out.append("    %s: %s" % (rnd.choice(["Scenario", "Example"]), name))
+            out.append("    %s: %s" % ("Scenario" if same else rnd.choice(["Scenario", "Example"]), name))
             ent_lines.append(len(out))
             out += steps_body(body, rnd, "      ", "")
         elif k == "outline":
             out += fill(pre, True, tagline, "    ")
-            out.append("    %s: %s" % (rnd.choice(["Scenario Outline", "Scenario Template"]), name))
+            out.append("    %s: %s" % ("Scenario Outline" if same else rnd.choice(["Scenario Outline", "Scenario Template"]), name))
             ent_lines.append(len(out))
             out += steps_body(body, rnd, "      ", " <x>")
             tab = 0
@@ -117,8 +121,8 @@ def steps_body(n, rnd, ind, ph):
     return [ind + "%s a step%s" % ("Given" if j == 0 else "And", ph) for j in range(n)]
 
 
-def write_layout(path, case, rnd, shift=0):
-    text, ent_lines, last = render(case["items"], rnd, shift)
+def write_layout(path, case, rnd, shift=0, same=False):
+    text, ent_lines, last = render(case["items"], rnd, shift, same)
     want = [e["line"] for e in case["E"]]
     if ent_lines != want or last != case["last"]:          # rendering contract broken: machinery, not a verdict
         raise RuntimeError("render contract: %r != %r (last %r/%r)" % (ent_lines, want, last, case["last"]))
@@ -229,7 +233,7 @@ def observe_sel(job):
         paths = []
         for k, case in enumerate(job["cases"]):
             p = names[k] if job.get("rel") else os.path.join(d, names[k])
-            write_layout(os.path.join(d, names[k]), case, rnd, shift=k)
+            write_layout(os.path.join(d, names[k]), case, rnd, shift=k, same=bool(job.get("same")))
             paths.append(p)
         row = {"id": job["id"], "kind": "sel", "mode": job["mode"], "files": [c["E"] for c in job["cases"]],
                "runs": [observe_run(spec, paths) for spec in job["runs"]]}
@@ -273,7 +277,7 @@ def observe_list(job):
             real = [os.path.join("lists", "feat", "a.feature"), os.path.join("other", "b.feature")]
         abs_paths = [os.path.join(d, p) for p in real]
         for k, case in enumerate(job["cases"]):
-            write_layout(abs_paths[k], case, rnd, shift=k)
+            write_layout(abs_paths[k], case, rnd, shift=k, same=bool(job.get("same")))
         if not os.path.isdir(os.path.dirname(os.path.join(d, listfile)) or d):
             os.makedirs(os.path.dirname(os.path.join(d, listfile)))
         with open(listfile, "w") as fh:
@@ -410,25 +414,25 @@ def build_jobs(chk, layouts, lists, names, scratch):
     # 1. sweeps: every layout, every line
     for n, case in enumerate(layouts):
         r = random.Random("%d:sweep:%d" % (chk.seed, n))
-        add({"kind": "sel", "mode": "sweep", "cases": [case], "rel": n % 2 == 1,
+        add({"kind": "sel", "mode": "sweep", "cases": [case], "rel": n % 2 == 1, "same": n % 4 < 2,
              "runs": sweep_runs(case, r, 1 if (quick and n % 3) else 2)})
     # 2. multisets of locations of one file
     for n, case in enumerate(layouts):
         r = random.Random("%d:multi:%d" % (chk.seed, n))
-        add({"kind": "sel", "mode": "multi", "cases": [case], "rel": n % 2 == 0,
+        add({"kind": "sel", "mode": "multi", "cases": [case], "rel": n % 2 == 0, "same": n % 4 >= 2,
              "runs": multi_runs(case, r, 6 if quick else 10, 1)})
     small = [c for c in layouts if c["last"] <= (7 if quick else 9)]
     for case in (small[:40] if quick else small):
-        add({"kind": "sel", "mode": "multi", "cases": [case], "rel": False, "runs": all_pairs_runs(case)})
+        add({"kind": "sel", "mode": "multi", "cases": [case], "rel": False, "same": True, "runs": all_pairs_runs(case)})
     # 3. several files
     for n in range(150 if quick else 1500):
         cs = [rnd.choice(layouts) for _ in range(rnd.choice([2, 2, 3]))]
         r = random.Random("%d:files:%d" % (chk.seed, n))
-        add({"kind": "sel", "mode": "files", "cases": cs, "rel": n % 2 == 1, "runs": files_runs(cs, r, 4)})
+        add({"kind": "sel", "mode": "files", "cases": cs, "rel": n % 2 == 1, "same": n % 3 == 0, "runs": files_runs(cs, r, 4)})
     # 4. list files (every TLC list case on a rotating pair of layouts)
     pairs = [[rnd.choice(layouts), rnd.choice(layouts)] for _ in range(12 if quick else 60)]
     for n, case in enumerate(lists):
-        add({"kind": "list", "cases": pairs[n % len(pairs)], "here": case["here"], "list": case["list"]})
+        add({"kind": "list", "cases": pairs[n % len(pairs)], "here": case["here"], "list": case["list"], "same": n % 2 == 0})
     # 5. name selection (every TLC name case on a rotating layout with at least three scenarios)
     rich = [c for c in layouts if sum(1 for e in c["E"] if e["k"] in ("scenario", "row")) >= 3] or layouts
     picks = [rnd.choice(rich) for _ in range(16 if quick else 120)]
@@ -462,7 +466,7 @@ def signature(clause, job, row, n):
     label = ""
     if job["mode"] == "sweep":
         label = "|at=" + loc_label(job["cases"][0]["E"], spec["locs"][0])
-    return "%s|%s|via=%s%s" % (clause, job["mode"], spec["via"], label)
+    return "%s|%s|via=%s|names=%s%s" % (clause, job["mode"], spec["via"], "same" if job.get("same") else "distinct", label)
 
 
 def loc_label(E, l):
@@ -487,7 +491,8 @@ def detail(job, row, n):
         o = row["obs"][n - 1] if n else {}
         return "--name %s: scenario %r sel=%s status=%s exc=%r" % (
             json.dumps(job["texts"]), "".join(o.get("name", [])), o.get("sel"), o.get("status"), row["exc"])
-    return "entities=%s locations=%s form=%s -> %s" % (
+    return "%sentities=%s locations=%s form=%s -> %s" % (
+        "all scenarios/outlines share keyword and name; " if job.get("same") else "",
         json.dumps([[(e["k"], e["line"], e["par"], e["tag"]) for e in c["E"]] for c in job["cases"]]),
         json.dumps(job["runs"][n - 1]["locs"]), job["runs"][n - 1]["form"], json.dumps(row["runs"][n - 1]))
 
@@ -557,7 +562,7 @@ def run(chk):
             nruns += len(row["runs"])
             nevals += sum(len(f["present"]) for run in row["runs"] for f in run["feats"])
             for spec in j["runs"]:
-                distinct.add(json.dumps([[c["items"] for c in j["cases"]], spec["locs"], spec["form"]], sort_keys=True))
+                distinct.add(json.dumps([[c["items"] for c in j["cases"]], spec["locs"], spec["form"], bool(j.get("same"))], sort_keys=True))
         elif j["kind"] == "list":
             nruns += 2
             nevals += len(row["locs"]) + sum(len(f["present"]) for f in row["run"]["feats"])
